@@ -311,7 +311,8 @@ G4X(u_) == { CaseOf(<<Module("a", <<>>, <<Grouping("g", <<Cont("gc", <<Leaf("gl"
 
 \* ---------------------------------------------------------------- C20
 Filters(u_) == << FNone, FIs("config"), FIs("state"), FIs("opd"), FIs("configorstate"),
-                  FInc(<<FIs("config")>>), FInc(<<FIs("state")>>), FInc(<<FIs("config"), FIs("state")>>), FInc(<<FIs("config"), FIs("opd")>>),
+                  FInc(<<FIs("config")>>), FInc(<<FIs("state")>>), FInc(<<FIs("config"), FIs("state")>>), FInc(<<FIs("config"), FIs("opd")>>), FInc(<<FIs("state"), FIs("opd")>>), FInc(<<FIs("opd")>>),
+                  FExc(<<FIs("state"), FIs("opd")>>), FExc(<<FIs("config"), FIs("opd")>>),
                   FInc(<<FIs("config"), FIncState(FALSE)>>), FInc(<<FIs("config"), FIncState(TRUE)>>),
                   FExc(<<FIs("config")>>), FExc(<<FIs("state")>>), FExc(<<FIs("opd")>>), FExc(<<FIs("config"), FIs("state")>>),
                   FIncState(TRUE), FIncState(FALSE), FInc(<<>>), FExc(<<>>), FInc(<<FExc(<<FIs("state")>>)>>), FExc(<<FInc(<<FIs("config")>>)>>) >>
@@ -403,9 +404,63 @@ H4Tree(cf) == << Leaf("s", CF(cf[1])),
    Cont("pc", <<P("presence", "p"), P("must", "../s"), Leaf("pm", CF(cf[1]) \o <<P("mandatory", "true")>>)>>) >>
 H4(u_) == { [m |-> <<Module("a", <<>>, H4Tree([i \in 1..6 |-> i \in on]))>>, e |-> {}, alt |-> "none", fl |-> Filters(0)] : on \in SUBSET (1..6) }
 
+\* ---------------------------------------------------------------- twins: the same local name in several modules
+\* F10: groupings called g in a and b with different bodies, each used locally without prefix, and across
+F10(u_) == { CaseOf(m, {}, "inline") : m \in {
+   << Module("b", <<>>, <<Grouping("g", <<Leaf("bx", <<P("default", "b")>>)>>), Cont("tb", <<Uses("", "g", <<>>)>>)>>),
+      Module("a", <<"b">>, <<Grouping("g", <<Cont("ac", <<Leaf("ax", <<>>)>>)>>), Cont("ta", <<Uses("", "g", <<>>)>>), Cont("tx", <<Uses("b", "g", <<>>)>>), Cont("ty", <<Uses("a", "g", <<>>)>>)>>) >>,
+   << Module("a", <<>>, <<Grouping("g", <<Cont("ac", <<Leaf("ax", <<>>)>>)>>), Cont("ta", <<Uses("", "g", <<Refine(<<"", "ac">>, <<P("presence", "p")>>)>>)>>)>>),
+      Module("b", <<>>, <<Grouping("g", <<Leaf("bx", <<>>)>>), Cont("tb", <<Uses("", "g", <<Refine(<<"", "bx">>, <<P("default", "rb")>>)>>)>>)>>),
+      Module("c", <<"a", "b">>, <<Grouping("g", <<LeafList("cl", <<>>)>>), Cont("tc", <<Uses("", "g", <<>>), Cont("ca", <<Uses("a", "g", <<>>)>>), Cont("cb", <<Uses("b", "g", <<>>)>>)>>)>>) >>,
+   << Submodule("as", "a", <<>>, <<Grouping("h", <<Leaf("sh", <<>>)>>), Cont("ts", <<Uses("", "h", <<>>)>>)>>),
+      Module("b", <<>>, <<Grouping("h", <<Leaf("bh", <<>>)>>), Cont("tb", <<Uses("", "h", <<>>)>>)>>),
+      Module("a", <<"b">>, <<Include("as"), Cont("ta", <<Uses("", "h", <<>>), Cont("tx", <<Uses("b", "h", <<>>)>>)>>)>>) >> } }
+
+\* G2T: features with the same local name in several modules, every reference spelling, enabled per module
+G2TSets(sa, sb) == {
+   << Module("a", <<>>, <<Feature("extras", sa), Leaf("ax", <<IfF("", "extras")>>), Leaf("ay", <<IfF("a", "extras")>>)>>),
+      Module("b", <<>>, <<Feature("extras", sb), Leaf("bx", <<IfF("", "extras")>>), Leaf("by", <<IfF("b", "extras")>>)>>) >>,
+   << Module("b", <<>>, <<Feature("extras", sb), Cont("tb", <<Leaf("bx", <<IfF("", "extras")>>), Leaf("by", <<IfF("b", "extras")>>)>>)>>),
+      Module("a", <<"b">>, <<Feature("extras", sa), Cont("ta", <<Leaf("ax", <<IfF("", "extras")>>), Leaf("ay", <<IfF("b", "extras")>>), Leaf("az", <<IfF("a", "extras")>>)>>)>>) >>,
+   << Module("a", <<>>, <<Feature("extras", sa), Grouping("g", <<Leaf("gx", <<IfF("", "extras")>>)>>), Cont("ta", <<Uses("", "g", <<>>)>>)>>),
+      Module("b", <<"a">>, <<Feature("extras", sb), Cont("tb", <<IfF("", "extras"), Uses("a", "g", <<IfF("", "extras")>>), Leaf("bx", <<>>)>>)>>),
+      Module("c", <<"a", "b">>, <<Feature("extras", <<IfF("b", "extras")>>), Cont("tc", <<Leaf("cx", <<IfF("", "extras")>>)>>),
+                                 Augment(<<"a", "ta">>, <<IfF("", "extras"), Leaf("cn", <<>>)>>)>>) >> }
+G2T(u_) == UNION { { CaseOf(m, e, "none") : m \in G2TSets(sa, sb) } : sa \in {<<>>, <<P("status", "deprecated")>>}, sb \in {<<>>, <<P("status", "deprecated")>>},
+                     e \in FeatSets({<<"a", "extras">>, <<"b", "extras">>, <<"c", "extras">>}) }
+
+\* H5: the trees of rpcs (input, output) and notifications are filtered like the data tree
+H5Tree(c) == << Leaf("d", CF(c[1])),
+   St("rpc", <<"r">>, <<St("input", <<>>, <<Leaf("a", <<>>), Leaf("s", CF(c[1])), Cont("ic", CF(c[2]) \o <<Leaf("x", <<>>)>>), Uses("", "g", <<>>)>>),
+                        St("output", <<>>, <<Cont("oc", CF(c[3]) \o <<Leaf("y", <<>>), List("ol", "k", CF(c[1]))>>), Choice("och", <<Leaf("o1", CF(c[2])), Case("o2", <<Leaf("o2l", <<>>)>>)>>)>>)>>),
+   St("rpc", <<"bare">>, <<>>),
+   St("notification", <<"n">>, <<Leaf("na", <<>>), Cont("nst", CF(c[4]) \o <<Leaf("q", <<>>)>>), LeafList("nl", CF(c[3])), Uses("", "g", <<>>)>>),
+   Grouping("g", <<Leaf("gs", <<P("config", "false")>>), Leaf("gc", <<>>)>>) >>
+H5(u_) == { [m |-> <<Module("a", <<>>, H5Tree([i \in 1..4 |-> i \in on]))>>, e |-> {}, alt |-> "none", fl |-> Filters(0)] : on \in SUBSET (1..4) }
+
+\* H6: operational command nodes next to state nodes (both config false), in every document order
+OpdExt == St("module", <<"vyatta-opd-extensions-v1">>, <<P("namespace", "urn:vyatta.com:mgmt:vyatta-opd-extensions:1"), P("prefix", "opd")>>
+              \o [i \in 1..5 |-> St("extension", << <<"command", "option", "argument", "on-enter", "help">>[i] >>, <<P("argument", "text")>>)])
+OpdImp == St("import", <<"vyatta-opd-extensions-v1">>, <<P("prefix", "opd")>>)
+OpdCmd(n) == St("opd:command", <<n>>, <<P("opd:help", "about " \o n), P("opd:on-enter", n),
+                                         St("opd:option", <<n \o "o">>, <<Ty("string"), P("opd:help", "o"), St("opd:command", <<n \o "d">>, <<P("opd:on-enter", "x")>>)>>),
+                                         St("opd:argument", <<n \o "a">>, <<Ty("string"), P("opd:help", "a")>>)>>)
+H6Cfg == Cont("cfg", <<Leaf("a", <<>>), Leaf("s", <<P("config", "false")>>), Choice("ch", <<P("default", "x"), Case("x", <<Leaf("x1", <<>>)>>), Leaf("y", <<P("config", "false")>>)>>)>>)
+H6St == Cont("st", <<P("config", "false"), Leaf("z", <<>>), List("zl", "k", <<>>)>>)
+Perms3(a, b, c) == { <<a, b, c>>, <<a, c, b>>, <<b, a, c>>, <<b, c, a>>, <<c, a, b>>, <<c, b, a>> }
+OpdMod(n, imports, body) == St("module", <<n>>, <<P("namespace", "urn:" \o n), P("prefix", n), OpdImp>> \o Imports(imports) \o body)
+H6(u_) == { [m |-> m, e |-> {}, alt |-> "none", fl |-> Filters(0)] : m \in
+     { <<OpdExt, OpdMod("m1", <<>>, body)>> : body \in Perms3(H6Cfg, H6St, OpdCmd("show")) }
+\cup { <<OpdExt, OpdMod("m1", <<>>, <<OpdCmd("show")>>), OpdMod("m2", <<"m1">>, <<H6St, H6Cfg>>)>>,
+       <<OpdExt, OpdMod("m1", <<>>, <<H6St, H6Cfg>>), OpdMod("m2", <<"m1">>, <<OpdCmd("show")>>)>>,
+       <<OpdExt, OpdMod("m1", <<>>, <<OpdCmd("show"), OpdCmd("clear")>>)>>,
+       <<OpdExt, OpdMod("m1", <<>>, <<H6St>>)>>,
+       <<OpdExt, OpdMod("m1", <<>>, <<Leaf("s1", <<P("config", "false")>>), OpdCmd("show"), Leaf("c1", <<>>)>>)>>,
+       <<OpdExt, OpdMod("m1", <<>>, <<OpdCmd("show"), Leaf("s1", <<P("config", "false")>>), Leaf("c1", <<>>)>>)>> } }
+
 Family(name) == CASE name = "F1" -> F1(Bodies(0)) [] name = "F1q" -> F1(BodiesA(0)) [] name = "F2" -> F2(0) [] name = "F3" -> F3(0) [] name = "F4" -> F4(0) [] name = "F5" -> F5(0) [] name = "F6" -> F6(F6Extras(0)) [] name = "F6q" -> F6({<<>>, <<P("when", "1 = 1")>>}) [] name = "F7" -> F7(0) [] name = "F8" -> F8(0)
                   [] name = "G1c" -> G1K("container") [] name = "G1l" -> G1K("list") [] name = "G1h" -> G1K("choice")
                   [] name = "G2a" -> G2D(1) [] name = "G2b" -> G2D(2) [] name = "G2c" -> G2D(3) [] name = "G2d" -> G2D(4) [] name = "G2e" -> G2D(5)
                   [] name = "G2X" -> G2X(0) [] name = "G2S" -> G2S(0) [] name = "G3" -> G3(0) [] name = "G4" -> G4(0) [] name = "G4X" -> G4X(0)
-                  [] name = "H1q" -> H1(7) [] name = "H1" -> H1(11) [] name = "H2" -> H2(0) [] name = "H3" -> H3(0) [] name = "H4" -> H4(0) [] name = "F9" -> F9(0)
+                  [] name = "H1q" -> H1(7) [] name = "H1" -> H1(11) [] name = "H2" -> H2(0) [] name = "H3" -> H3(0) [] name = "H4" -> H4(0) [] name = "F9" -> F9(0) [] name = "F10" -> F10(0) [] name = "G2T" -> G2T(0) [] name = "H5" -> H5(0) [] name = "H6" -> H6(0)
 =============================================================================
